@@ -16,6 +16,8 @@ pub enum Op {
     Send { from_client: bool, size: u16, mode: u8 },
     /// drop everything in the given directions (bit 0 c->s, bit 1 s->c) for len_ms
     Blackout { dirs: u8, len_ms: u32 },
+    /// the application asks to disconnect
+    Disconnect { from_client: bool, now: bool },
 }
 
 #[derive(Clone, Debug, Serialize, Deserialize)]
@@ -58,6 +60,7 @@ impl Check for C10 {
             4 => (1u16..200).prop_map(|count| Op::Run { count }),
             4 => (any::<bool>(), 5u16..2000, 0u8..4).prop_map(|(from_client, size, mode)| Op::Send { from_client, size, mode }),
             2 => (1u8..4, prop_oneof![3 => 100u32..5_000, 2 => 5_000u32..70_000]).prop_map(|(dirs, len_ms)| Op::Blackout { dirs, len_ms }),
+            1 => (any::<bool>(), any::<bool>()).prop_map(|(from_client, now)| Op::Disconnect { from_client, now }),
         ];
         (
             (any::<u64>(), timeout(), timeout(), ka(), ka()),
@@ -80,7 +83,7 @@ impl Check for C10 {
     }
 
     fn rule(&self) -> String {
-        "case = World with one real Client and Server: generated active_timeout_ms (1..60 s) and keepalive settings on both sides, link latencies 0..300 ms, the first 0..12 SYNs and / or SYN-ACKs lost, a base step cadence of 1 ms..400 ms, then a generated sequence of ticks (0..8 s apart, either endpoint sometimes not stepping), runs of regular stepping, sends in both directions, and blackouts of 0.1..70 s in either or both directions (placing last-frame arrivals and deadlines at arbitrary offsets from the steps), optionally followed by an idle period of up to an hour (two in thorough) on a loss-free link. Oracle per endpoint, with e the time it became active and p the time of the step in which it last processed a valid data / sync / ack frame from its peer: (a) a Timeout on an active connection at step time t requires t - max(e, p) >= active_timeout_ms; (b) the first step with t - max(e, p) >= active_timeout_ms must report it; (c) with keepalive on, on loss-free links and 3*max(interval, 2 s) + 4*(latency + largest step gap) <= active_timeout_ms, no timeout during the idle period; (d) a client whose handshake never completes reports Error(Timeout) no earlier than 22 000 ms after connect() and no later than that plus 12 step gaps, having sent exactly 11 SYNs; the server sends at most 1 + 10 SYN-ACKs per pending entry and reports its handshake timeout no earlier than 22 000 ms after the SYN. Non-trivial = a deadline fell within two step gaps of a frame arrival, or the handshake needed at least one retry. Distinct = distinct serialised case.".into()
+        "case = World with one real Client and Server: generated active_timeout_ms (1..60 s) and keepalive settings on both sides, link latencies 0..300 ms, the first 0..12 SYNs and / or SYN-ACKs lost, a base step cadence of 1 ms..400 ms, then a generated sequence of ticks (0..8 s apart, either endpoint sometimes not stepping), runs of regular stepping, sends in both directions, and blackouts of 0.1..70 s in either or both directions (placing last-frame arrivals and deadlines at arbitrary offsets from the steps), optionally followed by an idle period of up to an hour (two in thorough) on a loss-free link. Oracle per endpoint, with e the time it became active and p the time of the step in which it last processed a valid data / sync / ack frame from its peer: (a) a Timeout on an active connection at step time t requires t - max(e, p) >= active_timeout_ms; (b) the first step with t - max(e, p) >= active_timeout_ms must report it; (c) with keepalive on, on loss-free links and 3*max(interval, 2 s) + 4*(latency + largest step gap) <= active_timeout_ms, no timeout during the idle period; (d) a client whose handshake never completes reports Error(Timeout) no earlier than 22 000 ms after connect() and no later than that plus 12 step gaps, having sent exactly 11 SYNs; the server sends at most 1 + 10 SYN-ACKs per pending entry and reports its handshake timeout no earlier than 22 000 ms after the SYN; (e) a disconnect attempt (disconnect() / disconnect_now() from either side at a generated moment) sends at most 1 + 10 Disconnect frames, at least 2 s apart, and gives up with Error(Timeout) no earlier than 22 000 ms after the first. Non-trivial = a deadline fell within two step gaps of a frame arrival, or the handshake needed at least one retry. Distinct = distinct serialised case.".into()
     }
 
     fn assumptions(&self) -> Vec<String> {
@@ -112,6 +115,7 @@ impl Check for C10 {
         let mut steps_s: Vec<(u64, u64)> = Vec::new();
         let mut idx = [0u32; 2];
         let mut blackouts: Vec<(u64, u64)> = Vec::new();
+        let mut client_cancelled = false;
 
         let mut tick = |w: &mut World, dt: u64, server: bool, client: bool, steps_c: &mut Vec<(u64, u64)>, steps_s: &mut Vec<(u64, u64)>| {
             w.advance(dt);
@@ -140,6 +144,29 @@ impl Check for C10 {
                     } else {
                         w.server_send(ci, world_payload(c.seed, 100, idx[1], *size as usize), 0, *mode);
                         idx[1] += 1;
+                    }
+                }
+                Op::Disconnect { from_client, now } => {
+                    if *from_client {
+                        if let Some(cl) = w.clients[ci].client.as_mut() {
+                            if !cl.is_active() {
+                                // disconnecting a pending client abandons the attempt silently (documented)
+                                client_cancelled = true;
+                            }
+                            if *now {
+                                cl.disconnect_now()
+                            } else {
+                                cl.disconnect()
+                            }
+                        }
+                    } else if let Some(server) = w.server.as_ref() {
+                        if let Some(rc) = server.client(&caddr) {
+                            if *now {
+                                rc.borrow_mut().disconnect_now()
+                            } else {
+                                rc.borrow_mut().disconnect()
+                            }
+                        }
                     }
                 }
                 Op::Blackout { dirs, len_ms } => {
@@ -218,7 +245,7 @@ impl Check for C10 {
                     }
                     classes.push("client_handshake_timeout");
                 }
-            } else if w.now_us > HS_BUDGET_US + 12 * max_gap(&steps_c, 0).max(1000) + 1_000_000 && steps_c.last().map_or(false, |l| l.1 > HS_BUDGET_US + 12 * max_gap(&steps_c, 0) + 1_000_000) {
+            } else if !client_cancelled && w.now_us > HS_BUDGET_US + 12 * max_gap(&steps_c, 0).max(1000) + 1_000_000 && steps_c.last().map_or(false, |l| l.1 > HS_BUDGET_US + 12 * max_gap(&steps_c, 0) + 1_000_000) {
                 return CaseResult::fail("oracle:c10:handshake_never_times_out:client", format!("client neither connected nor reported a timeout by t={} us ({} SYNs sent)", w.now_us, syns.len()));
             }
         }
@@ -253,6 +280,35 @@ impl Check for C10 {
             classes.push("handshake_retried");
         }
 
+        // ---- (e) disconnect retry budget ---------------------------------------------------------------
+        let c_disc: Vec<(u64, u64)> = w.wire.iter().filter(|r| r.from == caddr && r.bytes.first() == Some(&4)).map(|r| (r.seq, r.t_us)).collect();
+        let s_disc: Vec<(u64, u64)> = w.wire.iter().filter(|r| r.to == caddr && r.from == w.server_addr && r.bytes.first() == Some(&4)).map(|r| (r.seq, r.t_us)).collect();
+        for (name, frames, timeout_ev) in [
+            ("client", &c_disc, c_events.iter().find(|(s, _, e)| c_disc.first().map_or(false, |f| *s > f.0) && matches!(e, CEv::Error(SErr::Timeout))).map(|p| p.1)),
+            ("server", &s_disc, w.server_events.iter().find(|(s, _, e)| s_disc.first().map_or(false, |f| *s > f.0) && matches!(e, SEv::Error(a, SErr::Timeout) if *a == caddr)).map(|p| p.1)),
+        ] {
+            if frames.is_empty() {
+                continue;
+            }
+            classes.push("disconnect_attempt");
+            if frames.len() > 11 {
+                return CaseResult::fail(format!("oracle:c10:disconnect_count:{name}"), format!("{name} sent {} Disconnect frames for one attempt; the budget is 1 + 10", frames.len()));
+            }
+            for p in frames.windows(2) {
+                if p[1].1 + 1000 < p[0].1 + 2_000_000 {
+                    return CaseResult::fail(format!("oracle:c10:disconnect_resend_spacing:{name}"), format!("{name} re-sent its disconnect request {} us after the previous one (at t={} us); resends are 2 s apart", p[1].1 - p[0].1, p[1].1));
+                }
+            }
+            if let Some(t) = timeout_ev {
+                if t + 1000 < frames[0].1 + HS_BUDGET_US {
+                    return CaseResult::fail(
+                        format!("oracle:c10:disconnect_timeout_early:{name}"),
+                        format!("{name} gave up its disconnect attempt with Error(Timeout) at t={t} us, only {} us after the request was first sent at t={} us ({} Disconnect frames sent); the retry budget is 22 000 ms", t - frames[0].1, frames[0].1, frames.len()),
+                    );
+                }
+                classes.push("disconnect_attempt_timed_out");
+            }
+        }
         // ---- (a) (b) active timeouts --------------------------------------------------------------------
         let mut near_deadline = false;
         // client side
@@ -262,7 +318,7 @@ impl Check for C10 {
             let pol: Vec<(u64, u64)> = w.delivered.iter().filter(|d| d.to == caddr && d.seq > first_delivery_seq_enabling_connect(&w, caddr, cseq) && proof_of_life(&d.bytes)).map(|d| (d.seq, d.t_us)).collect();
             let term = c_events.iter().find(|(s, _, e)| *s > cseq && matches!(e, CEv::Disconnect | CEv::Error(_))).map(|p| (p.0, p.2.clone()));
             let (e_seq, e_time) = (cseq, e_time);
-            if let Some(v) = check_active(&steps_c, e_seq, e_time, &pol, timeout, term, "client", &mut near_deadline) {
+            if let Some(v) = check_active(&steps_c, e_seq, e_time, &pol, timeout, term, c_disc.first().map(|f| f.0), "client", &mut near_deadline) {
                 return CaseResult { violation: Some(v), nontrivial: true, classes };
             }
         }
@@ -278,7 +334,7 @@ impl Check for C10 {
                     _ => CEv::Connect,
                 })
             });
-            if let Some(v) = check_active(&steps_s, e_seq, e_time, &pol, timeout, term, "server", &mut near_deadline) {
+            if let Some(v) = check_active(&steps_s, e_seq, e_time, &pol, timeout, term, s_disc.first().map(|f| f.0), "server", &mut near_deadline) {
                 return CaseResult { violation: Some(v), nontrivial: true, classes };
             }
         }
@@ -358,7 +414,7 @@ fn first_delivery_seq_enabling_server_connect(w: &World, caddr: std::net::Socket
 /// Checks clauses (a) and (b) for one endpoint. `steps` are (event seq right after the step, time)
 /// of its steps, `e` the event seq / time at which it became active, `pol` the (delivery seq, time)
 /// of proof-of-life frames handed to it, `term` its terminal event (event seq, event).
-fn check_active(steps: &[(u64, u64)], e_seq: u64, e: u64, pol: &[(u64, u64)], timeout: u64, term: Option<(u64, CEv)>, name: &str, near: &mut bool) -> Option<Violation> {
+fn check_active(steps: &[(u64, u64)], e_seq: u64, e: u64, pol: &[(u64, u64)], timeout: u64, term: Option<(u64, CEv)>, closing_from: Option<u64>, name: &str, near: &mut bool) -> Option<Violation> {
     let mut pi = 0usize;
     let mut p = e;
     let mut prev_t = e;
@@ -366,6 +422,10 @@ fn check_active(steps: &[(u64, u64)], e_seq: u64, e: u64, pol: &[(u64, u64)], ti
         if s_after < e_seq {
             prev_t = t;
             continue;
+        }
+        // once the endpoint has sent its own disconnect request it is closing, not active
+        if closing_from.map_or(false, |c| c <= s_after) {
+            return None;
         }
         while pi < pol.len() && pol[pi].0 <= s_after {
             p = p.max(pol[pi].1);
